@@ -351,3 +351,9 @@ _app("C12", "text", " check_vector, check_one_sequence and check_n_sequences are
 _app("C12", "note", "; tie (T): py2coq_val.py and base/ValPrelude.v as the meaning of the Python / numpy vocabulary on descriptors (DNum = int/float, DOther = str/dict, tuples = lists); "
      "exception messages and `caller` are not translated")
 _app("C12", "technique", " + validation code translated on every run and proved equal to the model (translator tie)")
+_app("C05", "text", " The sub-model sender mechanism itself is inside the model since session 3 (coq/model/SubSender.v: per-node _fb_flag parity bits, the reduced sender, call_distant_node as written): for "
+     "receivers placed before or after all nodes of their sender the flags stay in sync through complete steps and runs, the receiver reads the sender's output of step k-1 (pre-existing output at "
+     "k = 0) and no sender node is entered twice (C05_submodel_in_sync_preserved, C05_submodel_sender_delay); a straddling receiver and a sender partly outside the model are characterised for "
+     "arbitrary node functions; the three open flag-parity findings are reproduced by computation (C05_flag_parity_desync_refuted, ..._failed_step_refuted, C05_submodel_straddling_first_step_refuted); "
+     "correspondence family `subsender` compares states, flags and forward-entry counts on histories with stand-alone calls, aborted steps and forced feedback.")
+_app("C05", "note", " SubSender.v: one output node, no nested sub-model senders; the straddling / partly-outside theorems are per step on 3-node topologies.")
